@@ -678,6 +678,7 @@ std::vector<Scenario> scenarios_for(const std::string& prop, int tier) {
         { auto s = base("L6-rm1-121", {RUN(), PUB(1, 1), PUB(2, 2), PUB(1, 3)}, RECOVERABLE | F_REORDER | F_DELAY, 2, M_C02); s.broker.connack_props = {ref::pnum(0x21, 1)}; v.push_back(s); }
         { auto s = base("L7-rm2-2121", {RUN(), PUB(2, 1), PUB(1, 2), PUB(2, 3), PUB(1, 4)}, RECOVERABLE & ~(F_CONN | F_HS), tier ? 2 : 2, M_C02); s.broker.connack_props = {ref::pnum(0x21, 2)}; v.push_back(s); }
         { auto s = base("L5-mixed", {RUN(), PUB(1, 1), SUB({{"x", 0}}), PUB(2, 2), UNSUB({"y"})}, RECOVERABLE | F_REORDER, tier ? 2 : 1, M_C02); v.push_back(s); }
+        { auto s = base("L8-refused-in-between", {RUN(), PUB(1, 1), PUB(2, 2), SUB({{"x", 1}})}, RECOVERABLE | F_REORDER, 2, M_C02 | M_C03); s.broker.connack_rc_script = {0, 0x89, 0, 0x89, 0}; v.push_back(s); }
     }
     else if (prop == "C03") {
         uint32_t fam = RECOVERABLE | SCHED | (tier ? F_BYTE : 0);
@@ -1011,6 +1012,8 @@ std::vector<Scenario> scenarios_for(const std::string& prop, int tier) {
         // the broker reuses packet id 1 for consecutive messages (each sent once the previous exchange is settled)
         { auto s = base("M6-id-reuse-q2-q2-q1-q1", {RUN(), RECV(12), SUB({{"b/#", 2}}), BARRIER(), BPUB(2, 1), BWAIT(), BPUB(2, 2), BWAIT(), BPUB(1, 3), BWAIT(), BPUB(1, 4)}, fam & ~F_CHUNK, 2, M_C04); v.push_back(s); }
         { auto s = base("M5-session-lost", {RUN(), RECV(12), SUB({{"b/#", 2}}), BARRIER(), BPUB(2, 1), BPUB(1, 2)}, fam & ~F_CHUNK, 2, M_C04); s.broker.sp_policy = {-1, 0, -1}; v.push_back(s); }
+        // a reconnect whose first attempt is refused (CONNACK 0x89, Session Present 0) before the session is resumed
+        { auto s = base("M7-refused-then-resumed", {RUN(), RECV(12), SUB({{"b/#", 2}}), BARRIER(), BPUB(2, 1), BPUB(1, 2)}, fam & ~F_CHUNK, 2, M_C04); s.broker.connack_rc_script = {0, 0x89, 0, 0x89, 0}; v.push_back(s); }
         if (tier) { size_t n0 = v.size(); for (size_t i = 0; i < n0; ++i) { Scenario b = v[i]; b.name += "-bytecuts"; b.fam |= F_BYTE; b.D = 2; v.push_back(b); } }   // byte-granular cut positions at one deviation less
         for (auto& s : v) s.expect_all_success = false;
     }
